@@ -133,9 +133,14 @@ def _build(mk, desc, T, blsym, subst_kind, freqs, site_pattern=None):
         bl = torch.tensor([float(v) for v in vals], dtype=torch.float64)
     tm = UnRootedTreeModel("t", tree, taxa, Parameter("bl", bl))
     subst = JC69("jc") if subst_kind == "JC69" else C01.make_subst_stub(mk, freqs, 4)
+    def mk_sp():
+        if desc.get("indices") is None:
+            return SitePattern("sp", aln)
+        # the column selection written as the 'indices' option of the site pattern (parsed by the real from_json)
+        return SitePattern.from_json({"id": "sp", "type": "SitePattern", "alignment": "a", "indices": desc["indices"]}, {"a": aln})
     if site_pattern == "make":
-        return SitePattern("sp", aln)
-    return TreeLikelihoodModel("like", site_pattern if site_pattern is not None else SitePattern("sp", aln), tm, subst, ConstantSiteModel("sm"),
+        return mk_sp()
+    return TreeLikelihoodModel("like", site_pattern if site_pattern is not None else mk_sp(), tm, subst, ConstantSiteModel("sm"),
                                use_ambiguities=desc.get("use_amb", True), use_tip_states=desc.get("tip_states", False))
 
 
@@ -447,6 +452,17 @@ def obligations(tier, seed):
                 tb = _reroot(tree, target)
                 b = dict(base, newick=trees.to_newick(tb, names))
                 add("C02.reroot.JC69[%s -> %s]" % (base["newick"], b["newick"]), (T, base, b, "JC69"), "root placement (pulley principle, JC69 exact)")
+    # a selection of columns written as the 'indices' option of the site pattern instead of by editing the sequences
+    for T, tree in ((3, ((0, 1), 2)), (4, ((0, 3), (1, 2)))):
+        names = NAMES[:T]
+        nw = trees.to_newick(tree, names)
+        for spec, cols in (("0:3,3:6", [0, 1, 2, 3, 4, 5]), ("3:6,0:3", [3, 4, 5, 0, 1, 2]), ("0:8:2,1:8:2", [0, 2, 4, 6, 1, 3, 5, 7]), ("5,4,3,2,1,0", [5, 4, 3, 2, 1, 0]),
+                           ("0:4,6,-1", [0, 1, 2, 3, 6, 8]), ("2::3", [2, 5, 8]), ("-3:", [6, 7, 8])):
+            a6 = {"newick": nw, "taxa": names, "seq_order": names, "cols": cols}
+            b6 = {"newick": nw, "taxa": names, "seq_order": names, "cols": list(range(9)), "indices": spec}
+            for ts_ in ((False, True) if T == 3 else (False,)):
+                add("C02.site_indices[%s,indices=%s,tipstates=%s]" % (nw, spec, ts_), (T, dict(a6, tip_states=ts_), dict(b6, tip_states=ts_), "stub"),
+                    "column selection through the 'indices' option")
     # leaf numbering option of the tree specification (fixed cases: the names of these obligations do not depend on the seed)
     for newick, order in (("((A,C),B);", "CBA"), ("((A,C),B);", "ACB"), ("((A,D),(B,C));", "DCBA"), ("(((A,B),C),(D,E));", "EDCBA"), ("(((A,B),C),(D,E));", "ABCDE")):
         T = len(order)
